@@ -1054,7 +1054,9 @@ LEVEL_NOTE = (
     "(inh:* families); not covered: passive_updates=True, many-to-many key cascades, single-table inheritance, composite "
     "attributes, association objects as such (they are ordinary classes with two foreign keys here), expunge, merge, "
     "delete/delete-orphan cascades (oracle-only family; the known pending-orphan finding lives there), rollback and "
-    "savepoints inside a history, PostgreSQL/MariaDB. Trusted: Coq kernel, the hand transcription (pin + "
+    "savepoints inside a history, PostgreSQL/MariaDB. Histories that run into one of the known findings (removal from / "
+    "delete of the parent of a post_update one-to-many collection, a collection lazy-loaded after an unflushed key "
+    "change) are compared by the oracle only. Trusted: Coq kernel, the hand transcription (pin + "
     "correspondence after every flush), SQLite. No axioms."
 )
 TECHNIQUE = (
